@@ -1,4 +1,4 @@
-(* Gen/GenC02reflect.v - ReflectInspector.Get on the shipped types and a sample of the emit units. *)
+(* Gen/GenC02reflect.v - ReflectInspector.Get on the shipped types and on the defined-type units (GenC02.defined_units). *)
 From Coq Require Import ZArith.
 From Verif Require Import GenC02.
 Definition cases (tier : Z) (seed : Z) := GenC02.reflect_cases tier seed.
